@@ -87,7 +87,13 @@ def analyse(ops, impl, own, model, spec, ledger):
         fresh = [p for p in probs if KNOWN_TAG not in p and p]
         for p in fresh:
             res['problems'].append((list(cur), i - start, p.split()[0], 'op=%s | %s' % (o, p)))
-        if fresh: stop = True; continue
+        if fresh:
+            # the sibling property's check must see this too: the allocator events of this op no longer match the ledger model
+            if ledger is not None and i < len(ledger) and not nomodel and not impl[i].startswith('panic'):
+                led = ledger[i].partition('%%')[0]
+                if led.split('!!')[0].strip() != ev.strip():
+                    res['problems'].append((list(cur), i - start, 'ledger-differs', 'op=%s | impl-events=%s | model-events=%s' % (o, ev.strip(), led[:300])))
+            stop = True; continue
         if known:
             for p in known: res['known'][p.split()[0]] += 1
             res['tainted'] += 1; stop = True     # memory of this sequence is corrupted by the known finding from here on
